@@ -596,11 +596,12 @@ def _assigned_names(node):
 
 
 def find_path_sensitive(cfg, starts, goal_pred, avoid=(), assume=None,
-                        decide=None, on_node=None, limit=20000):
+                        decide=None, on_node=None, limit=20000, on_edge=None):
     """BFS over (node, facts). facts: frozenset of (atom, truth, names).
     assume: {atom text: truth} initial facts (names taken from the atom).
     decide(node, facts) -> True/False/None may fold a cond node.
     on_node(node, facts) -> facts' may add/remove marker facts.
+    on_edge(node, label, facts) -> facts' or None (edge infeasible).
     Returns a path (list of nodes) or None."""
     from collections import deque
     avoid = set(id(n) for n in avoid)
@@ -654,6 +655,10 @@ def find_path_sensitive(cfg, starts, goal_pred, avoid=(), assume=None,
             if allowed is not None and lab in (True, False) and lab is not allowed:
                 continue
             mf = nf
+            if on_edge is not None:
+                mf = on_edge(n, lab, mf)
+                if mf is None:
+                    continue        # infeasible edge
             if new_fact is not None and lab in (True, False):
                 truth = (lab is True) == new_fact[1]
                 mf = frozenset(set(nf) | {(new_fact[0], truth,
